@@ -2,6 +2,7 @@ package rules
 
 import (
 	"go/token"
+	"go/types"
 	"strings"
 
 	"golang.org/x/tools/go/ssa"
@@ -557,4 +558,91 @@ func runC02(ctx *core.Ctx) {
 			ctx.Check(okE, "N5", "testscript.expand#os-expand", expand.Pos(), "expand is os.Expand of its argument with that mapping")
 		}
 	}
+	c02More(ctx)
+}
+
+// c02More: rules added after the third seeding round.
+func c02More(ctx *core.Ctx) {
+	p := ctx.P
+	ctx.Rule("N10", "the tokenizer sees the line as written: the string handed to the tokenizer by runLine is the line itself (or a re-slice of it), never the result of a call that rewrites it (strings.TrimSpace strips form feeds, non-breaking spaces and other characters the tokenizer treats as text)", 1)
+	ctx.Rule("N11", "a word only grows: inside the tokenizer every new value of the word being assembled is either the empty string (a new word starts after the finished one was appended to the result) or the previous value with a chunk appended; an assignment that does not extend the previous value drops the text collected so far", 1)
+	runLine := ctx.Need("N10", "testscript", "(*TestScript).runLine")
+	parse := ctx.Need("N11", "testscript", "(*TestScript).parse")
+	if runLine == nil || parse == nil {
+		return
+	}
+	n := 0
+	for _, c := range graph(p, runLine).Calls(ssax.FuncName(parse)) {
+		n++
+		raw := ssax.DerivedFrom(c.Call.Args[1], isVal(runLine.Params[1]), nil)
+		ctx.Check(raw, "N10", "testscript.runLine#tokenizer-input"+itoa(n), c.Pos(), "the tokenizer receives runLine's line parameter unmodified")
+	}
+	if n == 0 {
+		ctx.Bad("N10", "testscript.runLine#tokenizer-input", runLine.Pos(), "runLine does not call the tokenizer")
+	}
+	// the word accumulator: the string that is appended to the result list
+	g := graph(p, parse)
+	var words []ssa.Value
+	g.Instrs(func(i ssa.Instruction) {
+		c, ok := i.(*ssa.Call)
+		if !ok || !isBuiltinCall(c, "append") || len(c.Call.Args) != 2 {
+			return
+		}
+		if sl, ok := c.Call.Args[0].Type().Underlying().(*types.Slice); !ok || sl.Elem().String() != "string" {
+			return
+		}
+		for _, e := range variadicElems(c.Call.Args[1]) {
+			words = append(words, e)
+		}
+	})
+	if len(words) == 0 {
+		ctx.Unknown("N11", "testscript.parse#word", parse.Pos(), "no word is appended to the result list")
+		return
+	}
+	inWeb := map[ssa.Value]bool{}
+	var leaves []leaf
+	var grow func(v ssa.Value)
+	grow = func(v ssa.Value) {
+		if inWeb[v] {
+			return
+		}
+		inWeb[v] = true
+		switch x := v.(type) {
+		case *ssa.Phi:
+			for k, e := range x.Edges {
+				switch e.(type) {
+				case *ssa.Phi, *ssa.BinOp:
+					grow(e)
+				default:
+					leaves = append(leaves, leaf{e, x.Block().Preds[k], x})
+				}
+			}
+		case *ssa.BinOp:
+			if x.Op == token.ADD {
+				grow(x.X) // the previous value; x.Y is the chunk
+			}
+		}
+	}
+	for _, w := range words {
+		grow(w)
+	}
+	bad := ""
+	for v := range inWeb {
+		if b, ok := v.(*ssa.BinOp); ok && b.Op == token.ADD {
+			if _, isPhi := b.X.(*ssa.Phi); !isPhi {
+				if _, isAdd := b.X.(*ssa.BinOp); !isAdd {
+					if s, isK := ssax.ConstString(b.X); !isK || s != "" {
+						bad = "a concatenation does not start from the word assembled so far"
+					}
+				}
+			}
+		}
+	}
+	for _, l := range leaves {
+		if s, isK := ssax.ConstString(l.Val); isK && s == "" {
+			continue
+		}
+		bad = "the word is replaced by " + l.Val.String() + " instead of being extended (text collected before is lost)"
+	}
+	ctx.Check(bad == "", "N11", "testscript.parse#word-grows", parse.Pos(), "every new value of the word under construction is \"\" or the old value plus a chunk %s", bad)
 }
